@@ -73,7 +73,7 @@ struct Scenario;   // scenarios.hpp
 struct Event {
     enum K { NONE, CONNECT_OK, WRITE_OK, WRITE_DEAD, WRITE_COMPLETE_LATE, READ_ALL, READ_ERR, READ_EOF, SHUTDOWN_OK, RELEASE, APP, TIME,
              CONNECT_REFUSED, CONNECT_HANG, HS_RC, HS_MALFORMED, HS_SILENT, HS_CLOSE, WR_FAIL, WR_SHORT, TAIL_LOSS, WR_DELIVER_ONLY, WR_FAIL_LATE,
-             WR_NOREPLY, WR_DELAY, WR_BCLOSE_BEFORE, WR_BCLOSE_AFTER, RD_CHUNK, RD_CUT, RD_LOSS, SHUTDOWN_HANG, INJECT, CONTINUE, RESOLVE_DONE, RESOLVE_FAIL } k = NONE;
+             WR_NOREPLY, WR_DELAY, WR_BCLOSE_BEFORE, WR_BCLOSE_AFTER, RD_CHUNK, RD_CUT, RD_LOSS, SHUTDOWN_HANG, INJECT, CONTINUE, RESOLVE_DONE, RESOLVE_FAIL, WRITE_HANG } k = NONE;
     int stream = -1; int a = 0; int e = 0; bool deviation = false;
     std::string str() const;
 };
@@ -119,6 +119,7 @@ private:
     bool app_action_enabled() const;
     int64_t last_now_seen = -1; int last_time_change_step = 0;
     std::set<int> open_before_epilogue;   // streams still open (not closed, not shut down) when the epilogue's cancel() was about to run
+    std::vector<std::pair<int64_t, int>> env_deadlines;   // (virtual time, stream): a hung write gives up with timed_out (the transport's own timeout)
     int64_t t_epilogue = -1; int free_ids_at_quiet = -1;   // identifiers free in the allocator when the run went quiescent (all exchanges completed), -1 = not taken
     bool in_epilogue = false; bool show_choices = getenv("SIMNET_SHOW_CHOICES") != nullptr;
     void do_action(const Action& a, bool from_handler);
